@@ -439,6 +439,11 @@ func genBatch(t *rapid.T) batchCase {
 		}
 		if coil {
 			f.Type = modbus.FieldTypeCoil
+			if rapid.IntRange(0, 3).Draw(t, "coil_with_register_attributes") == 0 {
+				// attributes that mean something for register fields only (a definition copied from a bit field, a struct reused): a coil
+				// field is its address
+				f.Bit, f.FromHighByte, f.Length = uint8(rapid.IntRange(1, 15).Draw(t, "coil_bit")), rapid.Bool().Draw(t, "coil_high"), uint8(rapid.IntRange(0, 4).Draw(t, "coil_len"))
+			}
 		} else {
 			g := fgen.RegisterField(t, f.Name, 0, 0)
 			f.Type, f.Bit, f.FromHighByte, f.ByteOrder, f.Length = g.Type, g.Bit, g.FromHighByte, g.ByteOrder, g.Length
